@@ -42,7 +42,29 @@ def _conjuncts(t):
     return [t]
 
 
+_FLAG_CACHE = {}      # term id -> (term kept alive, has quantifier, has regex)
+
+
+def _flags(t):
+    i = t.get_id()
+    ent = _FLAG_CACHE.get(i)
+    if ent is None or not ent[0].eq(t):
+        if len(_FLAG_CACHE) > 200000:
+            _FLAG_CACHE.clear()
+        ent = (t, _has_quantifier_uncached(t), _has_regex_uncached(t))
+        _FLAG_CACHE[i] = ent
+    return ent
+
+
 def _has_quantifier(t):
+    return _flags(t)[1]
+
+
+def _has_regex(t):
+    return _flags(t)[2]
+
+
+def _has_quantifier_uncached(t):
     seen = set()
     todo = [t]
     while todo:
@@ -57,7 +79,7 @@ def _has_quantifier(t):
     return False
 
 
-def _has_regex(t):
+def _has_regex_uncached(t):
     seen = set()
     todo = [t]
     while todo:
@@ -312,10 +334,12 @@ class PathState:
             r = 'T' if k else 'N'
         elif _has_quantifier(t):
             r = 'U'
-        elif self.must_hold(t, timeout_ms=SITE_TIMEOUT_MS):
+        elif self.lenabs.must_hold(t, self.scopes):
+            # (decided on the arithmetic / boolean abstraction only: this is an optimisation that avoids
+            # building a merged formula, not worth a query to the string solver at every `and` / `or`)
             r = 'T'
             self._record_known(t, True)
-        elif self.must_hold(z3.Not(t), timeout_ms=SITE_TIMEOUT_MS):
+        elif self.lenabs.must_hold(z3.Not(t), self.scopes):
             r = 'N'
             self._record_known(t, False)
         else:
